@@ -36,6 +36,9 @@ def run(repo: Repo, tier: str, res: CheckResult, seed: int = 0) -> None:
     exact_value_loader(repo, m, res)
     flag_list_dumper(repo, m, res)
     flag_list_loader(repo, m, res)
+    predicate_partition(repo, m, res)
+    member_key_lookup(repo, m, res)
+    silent_loss(repo, m, res)
     res.assumptions = list(ASSUMPTIONS)
 
 
@@ -632,3 +635,288 @@ def flag_list_loader(repo: Repo, m: ModuleInfo, res: CheckResult) -> None:
     if not tests or not (raises_after or raises_in):
         res.add(Finding("C18", "FLAG.loader-unknown-names", m.rel, qual, "no rejection of unknown names",
                         "names that are not in the table must be rejected with LoadError", loop.lineno))
+
+
+# ---------------------------------------------------------------------------------------------------------------------
+# which classes each provider family serves: the Enum predicate and the Flag predicate partition the EnumMeta classes
+
+_KINDS = ("plain Enum class", "Flag class", "non-enum class")
+_T, _F = (True, True, True), (False, False, False)
+
+
+def _cls_test(repo: Repo, m: ModuleInfo, fname: str, second: ast.expr) -> Tuple[bool, bool, bool]:
+    """truth of `<fname>(<a class>, second)` for the three kinds of class"""
+    if isinstance(second, ast.Tuple):
+        parts = [_cls_test(repo, m, fname, e) for e in second.elts]
+        return tuple(any(p[i] for p in parts) for i in range(3))  # type: ignore[return-value]
+    r = repo.resolve_expr_static(m, second) if isinstance(second, (ast.Name, ast.Attribute)) else None
+    target = r.name if r is not None and r.kind == "ext" else norm(second)
+    if fname == "isinstance":
+        table = {"enum.EnumMeta": (True, True, False), "enum.EnumType": (True, True, False), "builtins.type": _T, "type": _T,
+                 # the first argument is a class: it is never an instance (= member) of an enum class
+                 "enum.Enum": _F, "enum.Flag": _F, "enum.IntFlag": _F, "enum.IntEnum": _F}
+    else:
+        table = {"enum.Enum": (True, True, False), "enum.Flag": (False, True, False)}
+    if target not in table:
+        raise AnalysisError(f"enum predicate: cannot evaluate {fname}(<class>, {norm(second)})")
+    return table[target]
+
+
+def _eval_pred(repo: Repo, m: ModuleInfo, e: ast.expr, origins: Set[str]) -> Tuple[bool, bool, bool]:
+    if isinstance(e, ast.Constant) and isinstance(e.value, bool):
+        return _T if e.value else _F
+    if isinstance(e, ast.UnaryOp) and isinstance(e.op, ast.Not):
+        return tuple(not x for x in _eval_pred(repo, m, e.operand, origins))  # type: ignore[return-value]
+    if isinstance(e, ast.BoolOp):
+        parts = [_eval_pred(repo, m, v, origins) for v in e.values]
+        f = all if isinstance(e.op, ast.And) else any
+        return tuple(f(p[i] for p in parts) for i in range(3))  # type: ignore[return-value]
+    if isinstance(e, ast.Call) and len(e.args) == 2 and not e.keywords and norm(e.args[0]) in origins:
+        fname = norm(e.func).split(".")[-1]
+        if fname == "isinstance":
+            return _cls_test(repo, m, "isinstance", e.args[1])
+        if fname in ("issubclass", "is_subclass_soft"):
+            return _cls_test(repo, m, "issubclass", e.args[1])
+    raise AnalysisError(f"enum predicate: cannot evaluate `{norm(e)}`")
+
+
+def predicate_partition(repo: Repo, m: ModuleInfo, res: CheckResult) -> None:
+    """The class decorating the Enum providers' base must hold exactly for non-Flag Enum classes, the one decorating the
+    Flag providers' base exactly for Flag classes (abstractly evaluated on the three kinds of class)."""
+    want = {"EnumExactValueProvider": ("enum", (True, False, False)), "FlagByExactValueProvider": ("flag", (False, True, False))}
+    n = 0
+    for anchor, (role, expected) in want.items():
+        ci = m.classes.get(anchor)
+        if ci is None:
+            raise AnalysisError(f"anchor vanished: {anchor}")
+        pred_cls = None
+        for c in repo.mro(ci):
+            for d in c.node.decorator_list:
+                if isinstance(d, ast.Call) and norm(d.func).split(".")[-1] == "for_predicate" and d.args \
+                        and isinstance(d.args[0], ast.Call) and isinstance(d.args[0].func, ast.Name):
+                    pred_cls = m.classes.get(d.args[0].func.id)
+            if pred_cls is not None:
+                break
+        if pred_cls is None:
+            raise AnalysisError(f"cannot find the for_predicate(...) class of {anchor}")
+        fn = pred_cls.methods.get("_check_location")
+        if fn is None:
+            raise AnalysisError(f"{pred_cls.name} has no _check_location")
+        loc = fn.args.args[-1].arg
+        norms, origins = set(), set()
+        for node in ast.walk(fn):
+            if isinstance(node, ast.Assign) and len(node.targets) == 1 and isinstance(node.targets[0], ast.Name):
+                v = node.value
+                if isinstance(v, ast.Call) and norm(v.func).split(".")[-1] in ("normalize_type", "try_normalize_type") \
+                        and v.args and norm(v.args[0]) == f"{loc}.type":
+                    norms.add(node.targets[0].id)
+        for nm in norms:
+            origins.add(f"{nm}.origin")
+        for node in ast.walk(fn):
+            if isinstance(node, ast.Assign) and len(node.targets) == 1 and isinstance(node.targets[0], ast.Name) \
+                    and norm(node.value) in origins:
+                origins.add(node.targets[0].id)
+        if not origins:
+            raise AnalysisError(f"{pred_cls.name}._check_location: no normalised origin found")
+        verdict = None
+        for r in walk_no_nested(fn, include_root=False):
+            if isinstance(r, ast.Return) and r.value is not None:
+                if isinstance(m.parent(r), ast.ExceptHandler):
+                    continue     # the type cannot be normalised: not a class at all
+                v = _eval_pred(repo, m, r.value, origins)
+                verdict = v if verdict is None else tuple(a or b for a, b in zip(verdict, v))
+        if verdict is None:
+            raise AnalysisError(f"{pred_cls.name}._check_location: no return")
+        n += 1
+        res.evaluated(f"predicate:{role}", True)
+        res.sample({"predicate": pred_cls.name, "serves": dict(zip(_KINDS, verdict)), "expected": dict(zip(_KINDS, expected))})
+        if verdict != expected:
+            wrong = [f"{k}: {'served' if g else 'not served'} (must be {'served' if w else 'refused'})"
+                     for k, g, w in zip(_KINDS, verdict, expected) if g != w]
+            res.add(Finding("C18", "PRED.enum-flag-partition", m.rel, f"{pred_cls.name}._check_location", "; ".join(wrong),
+                            f"the predicate of the {role} providers does not select exactly the {role} classes ({'; '.join(wrong)}): "
+                            "a predicate-less enum_by_name()/enum_by_exact_value() in a recipe then captures Flag classes, whose "
+                            "unnamed combinations and zero value have no entry in the member table (KeyError on dump), or a flag "
+                            "provider is offered a plain Enum", fn.lineno))
+    res.count("PRED.predicates", n, 2)
+
+
+def _store_kind(value: ast.expr, param: str) -> str:
+    """what a `self.x = <value>` built from the user's `map` holds: 'raw' (names and members side by side),
+    'by-class' (member entries keyed with their class), 'names' (member keys filtered out), 'members-by-value'"""
+    v = value
+    if isinstance(v, ast.IfExp):
+        kinds = {_store_kind(b, param) for b in (v.body, v.orelse) if not (isinstance(b, ast.Dict) and not b.keys)}
+        return kinds.pop() if len(kinds) == 1 else "unknown"
+    if isinstance(v, ast.BoolOp) and isinstance(v.op, ast.Or):
+        kinds = {_store_kind(b, param) for b in v.values if not (isinstance(b, ast.Dict) and not b.keys)}
+        return kinds.pop() if len(kinds) == 1 else "unknown"
+    if isinstance(v, ast.Name):
+        return "raw" if v.id == param else "unknown"
+    if isinstance(v, ast.Call) and norm(v.func) in ("dict", "MappingProxyType") and len(v.args) == 1 and not v.keywords:
+        return _store_kind(v.args[0], param)
+    if isinstance(v, ast.DictComp) and len(v.generators) == 1:
+        g = v.generators[0]
+        if not (isinstance(g.iter, ast.Call) and isinstance(g.iter.func, ast.Attribute) and g.iter.func.attr == "items"
+                and isinstance(g.target, ast.Tuple) and len(g.target.elts) == 2 and isinstance(g.target.elts[0], ast.Name)):
+            return "unknown"
+        k = g.target.elts[0].id
+        only_members = only_names = False
+        for cond in g.ifs:
+            neg = isinstance(cond, ast.UnaryOp) and isinstance(cond.op, ast.Not)
+            c = cond.operand if neg else cond
+            if isinstance(c, ast.Call) and norm(c.func) == "isinstance" and len(c.args) == 2 and norm(c.args[0]) == k \
+                    and norm(c.args[1]).split(".")[-1] in ("Enum", "Flag"):
+                only_names, only_members = (True, only_members) if neg else (only_names, True)
+            else:
+                return "unknown"
+        if norm(v.value) != norm(g.target.elts[1]):
+            return "unknown"
+        key_names = {n.id for n in ast.walk(v.key) if isinstance(n, ast.Name)}
+        if only_names and norm(v.key) == k:
+            return "names"
+        if only_members and k in key_names:
+            ktxt = norm(v.key)
+            if f"type({k})" in ktxt or f"{k}.__class__" in ktxt:
+                return "by-class"
+            if ktxt == k:
+                return "members-by-value"
+            if ktxt in (f"{k}.name", f"{k}._name_"):
+                return "members-by-name"
+        return "unknown"
+    return "unknown"
+
+
+def member_key_lookup(repo: Repo, m: ModuleInfo, res: CheckResult) -> None:
+    """`map` may be keyed by members (Mapping[Union[str, Enum], str]) and one generator serves every class the provider is
+    asked for. Members of str/int mixed-in enums hash and compare as their values, so (a) a member-keyed entry has to be
+    matched on the member's class and name -- by name alone it renames same-named members of other classes, by the bare
+    member it also hits string keys and other classes' members that equal its value -- and (b) the name lookup must not
+    run against a table that still contains member keys."""
+    ci = m.classes.get("ByNameEnumMappingGenerator")
+    if ci is None:
+        raise AnalysisError("anchor vanished: ByNameEnumMappingGenerator")
+    init, gen = ci.methods.get("__init__"), ci.methods.get("_generate_mapping")
+    if init is None or gen is None:
+        raise AnalysisError("anchor vanished: ByNameEnumMappingGenerator.__init__/_generate_mapping")
+    member_keyed = [a.arg for a in init.args.args + init.args.kwonlyargs
+                    if a.annotation is not None and "Mapping" in norm(a.annotation) and "Enum" in norm(a.annotation)]
+    res.evaluated("map:member-key-lookup", bool(member_keyed))
+    if not member_keyed:
+        return
+    param = member_keyed[0]
+    stores: Dict[str, str] = {}
+    changed = True
+    derived = {param}
+    while changed:      # self._map = map ...; self._member_map = {... for k, v in self._map.items() ...}
+        changed = False
+        for n in ast.walk(init):
+            if isinstance(n, ast.Assign) and len(n.targets) == 1 and isinstance(n.targets[0], ast.Attribute) \
+                    and norm(n.targets[0].value) == "self" and norm(n.targets[0]) not in stores:
+                mentioned = {norm(x) for x in ast.walk(n.value) if isinstance(x, (ast.Name, ast.Attribute))}
+                src = [d for d in derived if d in mentioned]
+                if src:
+                    base = src[0]
+                    kind = _store_kind(n.value, base) if base == param else None
+                    if kind is None:
+                        # built from another stored table: a raw one passes its kind through the comprehension rules
+                        tmp = ast.parse(norm(n.value).replace(base, "__src__"), mode="eval").body
+                        kind = _store_kind(tmp, "__src__") if stores[base] == "raw" else "unknown"
+                    stores[norm(n.targets[0])] = kind
+                    derived.add(norm(n.targets[0]))
+                    changed = True
+    if not stores:
+        raise AnalysisError("ByNameEnumMappingGenerator.__init__ does not store the map parameter")
+    cases_param = gen.args.args[1].arg
+    loop_vars = {norm(n.target) for n in ast.walk(gen) if isinstance(n, (ast.For, ast.comprehension))
+                 and norm(n.iter) == cases_param and isinstance(n.target, ast.Name)}
+    if not loop_vars:
+        raise AnalysisError("ByNameEnumMappingGenerator._generate_mapping: no loop over the cases")
+    lookups: List[Tuple[ast.expr, str]] = []
+    for n in ast.walk(gen):
+        if isinstance(n, ast.Compare) and len(n.ops) == 1 and isinstance(n.ops[0], (ast.In, ast.NotIn)) \
+                and norm(n.comparators[0]) in stores:
+            lookups.append((n.left, norm(n.comparators[0])))
+        elif isinstance(n, ast.Subscript) and norm(n.value) in stores:
+            lookups.append((n.slice, norm(n.value)))
+        elif isinstance(n, ast.Call) and isinstance(n.func, ast.Attribute) and n.func.attr in ("get", "__getitem__", "__contains__") \
+                and norm(n.func.value) in stores and n.args:
+            lookups.append((n.args[0], norm(n.func.value)))
+    if not lookups:
+        raise AnalysisError("ByNameEnumMappingGenerator._generate_mapping never looks the map up")
+
+    def key_form(k: ast.expr) -> str:
+        txt = norm(k)
+        for lv in loop_vars:
+            if txt == lv:
+                return "member"
+            if txt in (f"{lv}.name", f"{lv}._name_"):
+                return "name"
+            if (f"type({lv})" in txt or f"{lv}.__class__" in txt) and (f"{lv}.name" in txt or f"{lv}._name_" in txt):
+                return "class+name"
+        return "other"
+    res.sample({"map-tables": stores, "map-lookups": [f"{norm(k)} in {t}" for k, t in lookups]})
+    problems = []
+    for k, table in lookups:
+        form, kind = key_form(k), stores[table]
+        if form == "other" or kind == "unknown":
+            raise AnalysisError(f"ByNameEnumMappingGenerator: cannot classify lookup `{norm(k)}` in `{table}` ({kind})")
+        if form == "member" and kind in ("raw", "members-by-value"):
+            problems.append(f"`{norm(k)} in {table}` matches by value: a str/int mixed-in member equals its value, so it hits a "
+                            f"name key or another class's member with that value")
+        elif form == "name" and kind in ("raw", "members-by-value", "by-class"):
+            problems.append(f"`{norm(k)} in {table}` runs the name lookup against a table that still holds member keys"
+                            if kind != "by-class" else f"`{norm(k)} in {table}`: a name looked up in the class-keyed table never matches")
+        elif form == "name" and kind == "members-by-name":
+            problems.append(f"`{norm(k)} in {table}` matches a member-keyed entry by the name alone: it renames the same-named "
+                            f"member of every other class the provider serves")
+        elif form == "class+name" and kind != "by-class":
+            problems.append(f"`{norm(k)} in {table}`: class-and-name key looked up in a table keyed differently ({kind})")
+    if not any(key_form(k) in ("member", "class+name") for k, _ in lookups):
+        problems.append("no lookup uses the member object: an entry given for a member of one class renames the same-named "
+                        "member of every other class the provider serves")
+    for pr in problems:
+        res.add(Finding("C18", "MAP.member-key-conflation", m.rel, "ByNameEnumMappingGenerator._generate_mapping",
+                        pr.split(":")[0][:120],
+                        f"`{param}` accepts members as keys; {pr}; two members of one class can then share a representation "
+                        "(dump not injective, one of them can never be loaded)", gen.lineno))
+
+
+def silent_loss(repo: Repo, m: ModuleInfo, res: CheckResult) -> None:
+    """Two places where a representation can lose information without anybody being told:
+    (a) generate_for_loading inverts name -> member with a dict display, which keeps the LAST of two members whose
+        representations collide (name_style folds A_B and AB to 'ab'; map gives two members one string);
+    (b) the member-name-list dumper walks the named cases and never compares what it emitted with the value, so bits
+        without an eligible name vanish (allow_compound=False and a bit that only a compound member names).
+    Either is sound only behind an explicit refusal (a raise on the collision / on the residual)."""
+    ci = m.classes.get("BaseEnumMappingGenerator")
+    fl = ci.methods.get("generate_for_loading") if ci is not None else None
+    if fl is None:
+        raise AnalysisError("anchor vanished: BaseEnumMappingGenerator.generate_for_loading")
+    scope: List[ast.AST] = [fl]
+    for c in ast.walk(fl):
+        if isinstance(c, ast.Call) and isinstance(c.func, ast.Attribute) and norm(c.func.value) == "self" \
+                and c.func.attr in ci.methods and c.func.attr != "_generate_mapping":
+            scope.append(ci.methods[c.func.attr])
+    res.evaluated("loss:inversion-collision", True)
+    if not any(isinstance(n, ast.Raise) for f in scope for n in ast.walk(f)):
+        res.add(Finding("C18", "INVERSE.collision-unchecked", m.rel, "BaseEnumMappingGenerator.generate_for_loading",
+                        "inversion keeps the last of colliding representations",
+                        "generate_for_loading inverts the member -> representation table without checking that it is injective: "
+                        "when two members get one representation (name_style folding, map) the dumper emits it for both and the "
+                        "loader returns the later member for it -- load(dump(m)) is not m and nothing is refused", fl.lineno))
+    pc = m.classes.get("FlagByListProvider")
+    md = pc.methods.get("_make_dumper") if pc is not None else None
+    if md is None:
+        raise AnalysisError("anchor vanished: FlagByListProvider._make_dumper")
+    closures = [f for f in ast.walk(md) if isinstance(f, ast.FunctionDef) and f is not md]
+    if not closures:
+        raise AnalysisError("FlagByListProvider._make_dumper: no dumper closure")
+    for f in closures:
+        res.evaluated(f"loss:list-dumper-residual:{f.name}", True)
+        if not any(isinstance(n, ast.Raise) for n in ast.walk(f)):
+            res.add(Finding("C18", "FLAG.residual-unchecked", m.rel, f"FlagByListProvider._make_dumper.{f.name}",
+                            "emitted members are never compared with the dumped value",
+                            "the member-name-list dumper emits the names of the eligible cases contained in the value and returns; "
+                            "bits of the value that no eligible case names are dropped silently, the list loads back as another "
+                            "value", f.lineno))
